@@ -29,10 +29,10 @@ Section Interp.
 
   Theorem interp_range x (xp fp : list R) : Forall U fp -> U (interp_ (O := ROps) x xp fp).
   Proof.
-    intros Hf. unfold interp_, interp_pairs.
+    intros Hf. unfold interp_, interp_pairs. rops.
     assert (Hc : Forall (fun p => U (snd p)) (combine xp fp)).
     { apply Forall_forall. intros [a b] Hin. apply in_combine_r in Hin. rewrite Forall_forall in Hf. apply Hf. exact Hin. }
-    destruct (combine xp fp) as [|[x0 f0] rest]; rops; [unfold U; lra|].
+    destruct (combine xp fp) as [|[x0 f0] rest]; rops; [unfold unit_interval; split; lra|].
     inversion Hc as [|? ? H0 Hr]. subst. cbn [snd] in H0.
     destruct (Rltb x x0) eqn:E; [exact H0|]. apply Rltb_false in E.
     apply interp_seg_range; assumption.
@@ -47,7 +47,9 @@ Section Vig.
   Lemma insert_ok f l : field_ok f -> Forall field_ok l -> Forall field_ok (insert_y f l).
   Proof.
     intros Hf. induction l as [|g l IH]; intros Hl; cbn [insert_y]; [constructor; [exact Hf|constructor]|].
-    inversion Hl. subst. destruct (ltb_ _ _); constructor; auto. constructor; auto.
+    inversion Hl. subst. destruct (ltb_ _ _).
+    - constructor; [exact Hf|]. constructor; assumption.
+    - constructor; [assumption|]. apply IH; assumption.
   Qed.
 
   Lemma sort_ok fs : Forall field_ok fs -> Forall field_ok (sort_y fs).
@@ -171,6 +173,13 @@ Section Uniform.
     destruct (inside (x, y)); cbn; rewrite IH; reflexivity.
   Qed.
 
+  Lemma mask_filter_same_length : forall X Y : list T,
+    length (mask_filter X (map inside (combine X Y))) = length (mask_filter Y (map inside (combine X Y))).
+  Proof.
+    unfold mask_filter. induction X as [|a X IH]; intros [|b Y]; cbn; try reflexivity.
+    destruct (inside (a, b)); cbn; rewrite IH; reflexivity.
+  Qed.
+
   Theorem uniform_points n vx vy :
     let xs := linspace_ (ofZ (-1)) (ofZ 1) n in
     combine (fst (k_dist_uniform O n vx vy)) (snd (k_dist_uniform O n vx vy)) =
@@ -179,6 +188,9 @@ Section Uniform.
     intros xs. unfold k_dist_uniform. cbn [fst snd]. fold xs.
     rewrite combine_map2, mask_of_pairs, mask_filter_pairs, mesh_grid. reflexivity.
   Qed.
+
+  Lemma filter_len_le {A} (f : A -> bool) (l : list A) : (length (filter f l) <= length l)%nat.
+  Proof. induction l as [|a l IH]; cbn; [lia|]. destruct (f a); cbn; lia. Qed.
 
   Lemma combine_split_length {A B} (l : list (A * B)) a b : combine a b = l -> length a = length b -> length a = length l.
   Proof. intros <- H. rewrite combine_length. lia. Qed.
@@ -191,13 +203,10 @@ Section Uniform.
   Proof.
     intros xs. pose proof (uniform_points n vx vy) as H. cbv zeta in H. fold xs in H.
     assert (L : length (fst (k_dist_uniform O n vx vy)) = length (snd (k_dist_uniform O n vx vy))).
-    { unfold k_dist_uniform. cbn [fst snd]. rewrite !map_length. unfold mask_filter.
-      rewrite !map_length. fold xs. rewrite mask_of_pairs.
-      generalize (mesh_x xs xs) (mesh_y xs xs). induction l as [|a l IH]; intros [|b m]; cbn; try reflexivity.
-      destruct (inside (a, b)); cbn; rewrite IH; reflexivity. }
+    { unfold k_dist_uniform. cbn [fst snd]. rewrite !map_length, mask_of_pairs. apply mask_filter_same_length. }
     assert (E := f_equal (@length _) H). rewrite combine_length, map_length in E.
     repeat split; try lia.
-    eapply Nat.le_trans; [apply filter_length_le|].
+    eapply Nat.le_trans; [apply filter_len_le|].
     unfold grid. clear. assert (Lx : length xs = Z.to_nat n) by apply linspace_length.
     assert (G : forall ys : list T, length (flat_map (fun y => map (fun x => (x, y)) xs) ys) = (length ys * length xs)%nat).
     { induction ys as [|y ys IH]; cbn; [reflexivity|]. rewrite app_length, map_length, IH. reflexivity. }
